@@ -76,12 +76,20 @@ class _Exc(_Rse):
 _CATCHES_KEYERROR = {"KeyError", "LookupError", "Exception", "BaseException"}
 
 
+def _catchers(kind: str) -> set[str]:
+    """the exception classes whose handlers catch an exception of class `kind`"""
+    if kind == "KeyError":
+        return _CATCHES_KEYERROR
+    if kind == "IndexError":
+        return {"IndexError", "LookupError", "Exception", "BaseException"}
+    return {kind, "Exception", "BaseException"}
+
+
 def _handler_catches(h: ast.ExceptHandler, kind: str) -> bool:
     if h.type is None:
         return True
     names = [chain(t) for t in (h.type.elts if isinstance(h.type, ast.Tuple) else [h.type])]
-    return any(n is not None and n.split(".")[-1] in (_CATCHES_KEYERROR if kind == "KeyError" else {kind, "Exception", "BaseException"})
-               for n in names)
+    return any(n is not None and n.split(".")[-1] in _catchers(kind) for n in names)
 
 
 @dataclass
@@ -169,6 +177,60 @@ def _new_names(repo) -> frozenset:
     if _NEW_NAMES[0] is not repo:
         _NEW_NAMES[0], _NEW_NAMES[1] = repo, frozenset(f.name for f in repo.all_functions() if _is_new(f))
     return _NEW_NAMES[1]
+
+
+_LITERALS: list = [None, {}]                  # (repo, {(module relpath, name) | (class, .attr): repr of the literal or None})
+
+
+def _literal_cache(repo) -> dict:
+    if _LITERALS[0] is not repo:
+        _LITERALS[0], _LITERALS[1] = repo, {}
+    return _LITERALS[1]
+
+
+def _plain_literal(v) -> bool:
+    if isinstance(v, tuple):
+        return all(_plain_literal(x) for x in v)
+    return v is None or (type(v) in (str, bytes, int, float, bool) and v == v)
+
+
+def _bound_once(module, name: str, imports: bool = False) -> bool:
+    """`name` has exactly one binding in the whole module (any scope: a conservative count) and is never declared global"""
+    n = 0
+    for node in ast.walk(module.tree):
+        if isinstance(node, ast.Name) and node.id == name and not isinstance(node.ctx, ast.Load):
+            n += 1
+        elif isinstance(node, (ast.Global, ast.Nonlocal)) and name in node.names:
+            return False
+        elif isinstance(node, (ast.FunctionDef, ast.AsyncFunctionDef, ast.ClassDef)) and node.name == name:
+            n += 1
+        elif isinstance(node, ast.arg) and node.arg == name:
+            n += 1
+        elif isinstance(node, (ast.Import, ast.ImportFrom)):
+            for a in node.names:
+                if (a.asname or a.name.split(".")[0]) == name:
+                    n += 1 if imports else 2
+        elif isinstance(node, ast.ExceptHandler) and node.name == name:
+            n += 1
+        elif isinstance(node, (ast.MatchAs, ast.MatchStar)) and node.name == name:
+            n += 1
+    return n == 1
+
+
+def _consts_bound_once(repo, module, expr: ast.expr, cls=None, depth: int = 0) -> bool:
+    """every name the folding of expr went through is itself a module constant bound once (so the folded value is THE value)"""
+    if depth > 6:
+        return False
+    for n in ast.walk(expr):
+        if isinstance(n, ast.Name):
+            r = repo.resolve_name(module, n.id)
+            if not (isinstance(r, tuple) and r[0] == "const" and _bound_once(r[1], n.id)
+                    and (r[1] is module or _bound_once(module, n.id, imports=True))
+                    and _consts_bound_once(repo, r[1], r[2], None, depth + 1)):
+                return False
+        elif not isinstance(n, (ast.Constant, ast.Tuple, ast.BinOp, ast.operator, ast.expr_context, ast.UnaryOp, ast.unaryop)):
+            return False
+    return True
 
 
 def _is_enum(c) -> bool:
@@ -385,8 +447,20 @@ class _Run:
     def go(self) -> _Path:
         p = _Path()
         try:
+            decos = self.new_decorators(self.fi) if self.driver is None else []
             if self.driver is not None:
                 p.ret = self.driver(self)
+            elif decos:
+                # the analysed function is decorated with a decorator the reviewed tree does not have: what runs under its name is
+                # the wrapper that decorator returns around the body (parameters symbolic, as for the plain body)
+                a = self.fi.node.args
+                if a.vararg or a.kwarg:
+                    raise self.undecided(f"the newly decorated {self.fi.qualname} takes *args / **kwargs")
+                value = self.decorated_callable(self.fi, decos)
+                p.ret = self.apply(self.picked(value), [ast.Name(id=x.arg, ctx=ast.Load()) for x in a.posonlyargs + a.args],
+                                   [ast.keyword(arg=x.arg, value=ast.Name(id=x.arg, ctx=ast.Load())) for x in a.kwonlyargs], None)
+                if isinstance(p.ret, ast.Constant) and p.ret.value is None:
+                    p.ret = None
             else:
                 self.block(self.fi.node.body)
         except _Ret as r:
@@ -532,6 +606,10 @@ class _Run:
             return f"is:{_t(l)}:{_t(r)}", pol
         if isinstance(op, (ast.In, ast.NotIn)):
             return f"in:{_t(l)}:{_t(r)}", isinstance(op, ast.In)
+        nl, nr = _int(l), _int(r)
+        if nl is not None and nr is not None and isinstance(op, (ast.Lt, ast.GtE, ast.Gt, ast.LtE)):
+            # an explicit loop index against a known length: two integers compare as they do
+            return None, {ast.Lt: nl < nr, ast.GtE: nl >= nr, ast.Gt: nl > nr, ast.LtE: nl <= nr}[type(op)]
         if isinstance(op, ast.Lt):
             return f"lt:{_t(l)}:{_t(r)}", True
         if isinstance(op, ast.GtE):
@@ -581,10 +659,10 @@ class _Run:
             left = v.left
             for op, right in zip(v.ops, v.comparators):
                 rr = strip_cast(right)
-                if isinstance(op, (ast.In, ast.NotIn)) and isinstance(rr, (ast.Tuple, ast.List, ast.Set)) \
-                        and not any(isinstance(x, ast.Starred) for x in rr.elts):
-                    # membership in a literal: equal to one of its elements
-                    hit = any(self.truth(ast.Compare(left=left, ops=[ast.Eq()], comparators=[x])) for x in rr.elts)
+                members = self.member_table(rr) if isinstance(op, (ast.In, ast.NotIn)) else None
+                if members is not None:
+                    # membership in a literal (also frozenset(...) of one, or a module constant bound to one): equal to one of its elements
+                    hit = any(self.truth(ast.Compare(left=left, ops=[ast.Eq()], comparators=[x])) for x in members)
                     if hit != isinstance(op, ast.In):
                         return False
                     left = right
@@ -617,6 +695,34 @@ class _Run:
         key = "t:" + _t(v)
         self.pretty.setdefault(key, (_t(v), f"not {_t(v)}"))
         return self.lookup(key)
+
+    def member_table(self, rr: ast.expr, depth: int = 0):
+        """the elements of the collection on the right of `in`, when they are known one by one; else None"""
+        if depth > 3:
+            return None
+        if isinstance(rr, (ast.Tuple, ast.List, ast.Set)):
+            return None if any(isinstance(x, ast.Starred) for x in rr.elts) else list(rr.elts)
+        if isinstance(rr, ast.Call) and isinstance(rr.func, ast.Name) and rr.func.id in ("frozenset", "set", "tuple", "list") \
+                and rr.func.id not in self.env and not rr.keywords and len(rr.args) <= 1:
+            return [] if not rr.args else self.member_table(rr.args[0], depth + 1)
+        if isinstance(rr, ast.Name) and rr.id.isidentifier() and rr.id not in self.env and self.repo is not None \
+                and rr.id not in self.frames[-1].params() and rr.id not in self.closures:
+            mod = self.frames[-1].module
+            try:
+                r = self.repo.resolve_name(mod, rr.id)
+            except (AttributeError, KeyError, TypeError):
+                r = None
+            if isinstance(r, tuple) and r[0] == "const" and _bound_once(r[1], rr.id) and (r[1] is mod or _bound_once(mod, rr.id, imports=True)):
+                v = r[2]
+                while isinstance(v, ast.Call) and isinstance(v.func, ast.Name) and v.func.id in ("frozenset", "set", "tuple", "list") \
+                        and not v.keywords and len(v.args) == 1:
+                    v = v.args[0]
+                if isinstance(v, (ast.Tuple, ast.List, ast.Set)) and not any(isinstance(x, ast.Starred) for x in v.elts):
+                    if r[1] is mod:
+                        return [self.in_frame_of(None, lambda x=x: self.ev(x)) for x in v.elts]
+                    if all(not _noconst(const_value(x)) for x in v.elts):
+                        return list(v.elts)
+        return None
 
     def isinstance_of(self, x: ast.expr, classes: ast.expr):
         """isinstance(x, classes) for an object created on this path and classes that resolve to definitions; None: not known"""
@@ -654,6 +760,9 @@ class _Run:
         if isinstance(e, ast.Name):
             if e.id in self.env:
                 return self.env[e.id]
+            lit = self.global_literal(e.id)
+            if lit is not None:
+                return lit                               # a named module constant is the literal it is bound to
             return self.versioned(ast.Name(id=e.id, ctx=ast.Load()))
         if isinstance(e, ast.Attribute):
             return self.attribute(self.ev(e.value), e.attr)
@@ -696,7 +805,10 @@ class _Run:
         if isinstance(e, ast.Dict):
             return ast.Dict(keys=[self.ev(k) if k is not None else None for k in e.keys], values=[self.ev(v) for v in e.values])
         if isinstance(e, (ast.ListComp, ast.SetComp, ast.GeneratorExp)):
-            return self.comprehension(e)
+            out = self.comprehension(e)
+            if isinstance(e, ast.GeneratorExp):
+                out._iter = True
+            return out
         if isinstance(e, ast.DictComp):
             pairs = self.comprehension(ast.ListComp(elt=ast.Tuple(elts=[e.key, e.value], ctx=ast.Load()), generators=e.generators))
             if any(isinstance(n, ast.Name) and n.id.startswith("each(") for x in pairs.elts for n in ast.walk(x)):
@@ -723,6 +835,75 @@ class _Run:
             return e
         raise self.undecided(f"expression `{norm(e)[:60]}`")
 
+    def global_literal(self, name: str):
+        """the literal a bare name denotes when it is a module-level constant (of the module of the code being evaluated, possibly
+        imported from another module of the repository) that is bound exactly once and folds to a plain literal; else None"""
+        if self.repo is None or not name.isidentifier() or name in self.closures or name in self.local_classes or name in self.imported:
+            return None
+        fi = self.frames[-1]
+        if name in fi.params() or (len(self.frames) == 1 and name in self.fi.params()):
+            return None
+        key = (fi.module.relpath, name)
+        cache = _literal_cache(self.repo)
+        if key not in cache:
+            cache[key] = None
+            try:
+                r = self.repo.resolve_name(fi.module, name)
+            except (AttributeError, KeyError, TypeError):
+                r = None
+            if isinstance(r, tuple) and r[0] == "const" and _bound_once(r[1], name) and (r[1] is fi.module or _bound_once(fi.module, name, imports=True)):
+                try:
+                    v = self.repo.resolve_const(r[1], r[2])
+                except (StopIteration, AttributeError, KeyError, TypeError, RecursionError):
+                    v = None
+                if _plain_literal(v) and _consts_bound_once(self.repo, r[1], r[2]):
+                    cache[key] = repr(v)
+        text = cache[key]
+        return None if text is None else ast.parse(text, mode="eval").body
+
+    def class_literal(self, b: ast.expr, attr: str):
+        """the literal `self.X` / `Class.X` denotes when X is a class-level constant that folds to a plain literal, that no class of the
+        repository redefines (as attribute or method) and that nothing in the repository assigns through an attribute; else None"""
+        if self.repo is None or not isinstance(b, ast.Name) or not b.id.isidentifier():
+            return None
+        if b.id == "self" and self.fi.cls is not None and self.fi.params()[:1] == ["self"]:
+            cls = self.fi.cls                            # (an evaluated `self` is the receiver of the analysed method: helpers' own are bound)
+        elif b.id in self.env or b.id in ("self", "cls"):
+            return None
+        else:
+            try:
+                cls = self.repo.resolve_class_expr(self.frames[-1].module, b)
+            except (AttributeError, KeyError, TypeError):
+                cls = None
+        if cls is None:
+            return None
+        cache = _literal_cache(self.repo)
+        key = (cls.where, "." + attr)
+        if key not in cache:
+            cache[key] = None
+            owners = [c for c in cls.mro() if attr in c.attrs]
+            special = any(x.split(".")[-1].endswith(("Enum", "Flag", "NamedTuple", "TypedDict", "Structure")) for x in cls.all_base_names()) \
+                or any(not (k.arg == "metaclass" and (chain(k.value) or "").split(".")[-1] == "ABCMeta") for c in cls.mro() for k in c.node.keywords) \
+                or attr.startswith("__")
+            # (members of Enum classes, NamedTuple field defaults, metaclass-built classes: `Class.X` is not the assigned value)
+            if owners and not special and not any(attr in c.methods for c in cls.mro()):
+                owner = owners[0]
+                family = {id(c.node) for c in (*cls.mro(), *cls.all_subclasses(), *owner.all_subclasses())}
+                redefined = sum(1 for cs in self.repo.classes.values() for c in cs if id(c.node) in family and (attr in c.attrs or attr in c.methods))
+                stored = any(not isinstance(n.ctx, ast.Load) for _, _, n in self.repo.attribute_uses(attr))
+                by_name = any(isinstance(n, ast.Constant) and n.value == attr for m in self.repo.modules.values() for n in ast.walk(m.tree))
+                once = sum(1 for st in owner.node.body for n in ast.walk(st) if isinstance(n, ast.Name) and n.id == attr and not isinstance(n.ctx, ast.Load)
+                           and not isinstance(st, (ast.FunctionDef, ast.AsyncFunctionDef, ast.ClassDef))) == 1
+                if redefined == 1 and not stored and not by_name and once:
+                    try:
+                        v = self.repo.resolve_const(owner.module, owner.attrs[attr], owner)
+                    except (StopIteration, AttributeError, KeyError, TypeError, RecursionError):
+                        v = None
+                    if _plain_literal(v) and _consts_bound_once(self.repo, owner.module, owner.attrs[attr], owner):
+                        cache[key] = repr(v)
+        text = cache[key]
+        return None if text is None else ast.parse(text, mode="eval").body
+
     def attribute(self, b: ast.expr, attr: str) -> ast.expr:
         """value of `b.attr` for an evaluated b"""
         b = self.base(b)
@@ -734,6 +915,9 @@ class _Run:
             v = self.enum_attr(b, m, attr)
             if v is not None:
                 return v
+        lit = self.class_literal(b, attr)
+        if lit is not None:
+            return lit                                   # a named class constant is the literal it is bound to
         a = ast.Attribute(value=b, attr=attr, ctx=ast.Load())
         if self.repo is not None and attr in _new_names(self.repo):
             tgt = self.target(a)
@@ -789,7 +973,7 @@ class _Run:
                     return v
             if default is not None:
                 return default
-            raise _Rse                                   # KeyError
+            raise _Exc("KeyError")
         elts = table.elts
         if isinstance(key, ast.Call) and isinstance(key.func, ast.Name) and key.func.id == "int" and len(key.args) == 1 \
                 and not key.keywords and _boolish(key.args[0]):
@@ -798,7 +982,7 @@ class _Run:
         if isinstance(kc, int) and not _noconst(kc):
             if -len(elts) <= kc < len(elts):
                 return elts[kc]
-            raise _Rse                                   # IndexError
+            raise _Exc("IndexError")
         if _boolish(key) and len(elts) >= 2:
             return elts[1] if self.truth(key) else elts[0]
         return self.versioned(ast.Subscript(value=table, slice=key, ctx=ast.Load()))
@@ -895,14 +1079,70 @@ class _Run:
             return None
         return cands[0]
 
-    def follow(self, tgt, fn: ast.expr, args: list, kws: list, src: ast.Call | None, self_value: ast.expr | None = None) -> ast.expr:
-        """evaluate the body of a followed helper with its parameters bound to the evaluated arguments"""
-        node = tgt.node if isinstance(tgt, FuncInfo) else tgt
-        what = tgt.qualname if isinstance(tgt, FuncInfo) else getattr(node, "name", "lambda")
-        if len(self.active) > 12:
-            raise self.undecided(f"helper calls nested deeper than 12 at {what}")
-        if any(isinstance(a, ast.Starred) for a in args) or any(k.arg is None for k in kws):
-            raise self.undecided(f"starred arguments in the call of helper {what}")
+    def new_decorators(self, tgt: FuncInfo) -> list:
+        """[(decorator expression, its definition)] for the decorators of tgt that are functions the reviewed tree does not have:
+        `@d` / `@d(args)` with d a module-level function (possibly of another module) or a plain function of the class body"""
+        out = []
+        if self.repo is None:
+            return out
+        for d in tgt.node.decorator_list:
+            f = d.func if isinstance(d, ast.Call) else d
+            dfi = None
+            if isinstance(f, ast.Name):
+                if tgt.cls is not None and f.id in tgt.cls.methods:
+                    dfi = tgt.cls.methods[f.id]
+                else:
+                    try:
+                        dfi = self.repo.resolve_name(tgt.module, f.id)
+                    except (AttributeError, KeyError, TypeError):
+                        dfi = None
+            elif isinstance(f, ast.Attribute) and isinstance(f.value, ast.Name):
+                try:
+                    r = self.repo.resolve_name(tgt.module, f.value.id)
+                except (AttributeError, KeyError, TypeError):
+                    r = None
+                if isinstance(r, tuple) and r[0] == "module" and r[1] is not None:
+                    dfi = r[1].functions.get(f.attr)
+                elif isinstance(r, ClassInfo):
+                    dfi = r.lookup(f.attr)
+            if isinstance(dfi, FuncInfo) and _is_new(dfi):
+                out.append((d, dfi))
+        return out
+
+    def body_callable(self, tgt: FuncInfo) -> ast.expr:
+        """the function object a decorator of tgt receives: calling it runs the undecorated body with the given arguments"""
+        node = ast.Name(id=f"<body of {tgt.qualname}>", ctx=ast.Load())
+
+        def body_impl(a, k, src):
+            return self.follow(tgt, ast.Name(id=tgt.name, ctx=ast.Load()), list(a), list(k), src, raw=True)
+        node._fn = body_impl
+        return node
+
+    def decorated_callable(self, tgt: FuncInfo, decos: list) -> ast.expr:
+        """what the name of a function decorated with NEW decorators denotes: d1(d2(body)), each decorator evaluated as the code it is
+        (decorators of the reviewed tree keep the meaning the rules already give them: the body)"""
+        value = self.body_callable(tgt)
+        self.frames.append(tgt)
+        try:
+            for d, dfi in reversed(decos):
+                if dfi.node in self.active:
+                    raise self.undecided(f"recursive decorator {dfi.qualname}")
+                dn = ast.Name(id=dfi.name, ctx=ast.Load())
+                if isinstance(d, ast.Call):
+                    if any(isinstance(a, ast.Starred) for a in d.args) or any(k.arg is None for k in d.keywords):
+                        raise self.undecided(f"starred arguments of decorator {dfi.qualname}")
+                    dargs = [self.in_frame_of(None, lambda a=a: self.ev(a)) for a in d.args]
+                    dkws = [ast.keyword(arg=k.arg, value=self.in_frame_of(None, lambda k=k: self.ev(k.value))) for k in d.keywords]
+                    maker = self.follow(dfi, dn, dargs, dkws, None)
+                    value = self.apply(self.picked(maker), [value], [], None)
+                else:
+                    value = self.follow(dfi, dn, [value], [], None)
+        finally:
+            self.frames.pop()
+        return value
+
+    def receiver(self, tgt, fn: ast.expr, self_value: ast.expr | None):
+        """the receiver a call `fn(...)` of the followed function tgt binds implicitly (None: none / given explicitly)"""
         bound_self = self_value                       # the receiver, when the caller knows it (methods of objects created on this path)
         if bound_self is None and isinstance(tgt, FuncInfo) and tgt.cls is not None and isinstance(fn, ast.Attribute):
             decos = set(tgt.decorator_names())
@@ -911,6 +1151,24 @@ class _Run:
                     and fn.value.id not in ("self", "cls") and isinstance(self.repo.resolve_class_expr(self.fi.module, fn.value), ClassInfo)
                 if not explicit:
                     bound_self = fn.value
+        return bound_self
+
+    def follow(self, tgt, fn: ast.expr, args: list, kws: list, src: ast.Call | None, self_value: ast.expr | None = None,
+               raw: bool = False) -> ast.expr:
+        """evaluate the body of a followed helper with its parameters bound to the evaluated arguments"""
+        node = tgt.node if isinstance(tgt, FuncInfo) else tgt
+        what = tgt.qualname if isinstance(tgt, FuncInfo) else getattr(node, "name", "lambda")
+        if len(self.active) > 12:
+            raise self.undecided(f"helper calls nested deeper than 12 at {what}")
+        if any(isinstance(a, ast.Starred) for a in args) or any(k.arg is None for k in kws):
+            raise self.undecided(f"starred arguments in the call of helper {what}")
+        bound_self = self.receiver(tgt, fn, self_value)
+        if not raw and isinstance(tgt, FuncInfo):
+            decos = self.new_decorators(tgt)
+            if decos:
+                # a function decorated with a decorator the reviewed tree does not have denotes what the decorator returns
+                value = self.decorated_callable(tgt, decos)
+                return self.apply(self.picked(value), ([bound_self] if bound_self is not None else []) + list(args), list(kws), src)
         a = node.args
         pos = [x.arg for x in a.posonlyargs + a.args]
         kwonly = [x.arg for x in a.kwonlyargs]
@@ -978,7 +1236,9 @@ class _Run:
             if len(self.stores) != n_stores:
                 # the body of a generator runs interleaved with its consumer: evaluating it eagerly would reorder its stores
                 raise self.undecided(f"generator helper {what} with stores")
-            return ast.List(elts=produced, ctx=ast.Load())
+            out = ast.List(elts=produced, ctx=ast.Load())
+            out._iter = True
+            return out
         if ret is None:
             ret = ast.Constant(value=None)
         if isinstance(node, ast.AsyncFunctionDef):
@@ -1029,7 +1289,7 @@ class _Run:
                 elts = list(cur.elts)
                 k = -1 if not args else idx
                 if not -len(elts) <= k < len(elts):
-                    raise _Rse                           # IndexError
+                    raise _Exc("IndexError")
                 v = elts.pop(k)
                 self.set_list(cur, ast.List(elts=elts, ctx=ast.Load()))
                 return v
@@ -1105,7 +1365,10 @@ class _Run:
             if len(args) == 1 and fn.id == "len":
                 return ast.Constant(value=len(first))
             if len(args) == 1 and fn.id in ("list", "iter"):
-                return ast.List(elts=first, ctx=ast.Load())
+                out = ast.List(elts=first, ctx=ast.Load())
+                if fn.id == "iter":
+                    out._iter = True                     # an iterator: next() consumes it
+                return out
             if len(args) == 1 and fn.id == "tuple":
                 return ast.Tuple(elts=first, ctx=ast.Load())
             if len(args) == 1 and fn.id == "reversed":
@@ -1118,10 +1381,14 @@ class _Run:
             first = seqs[0]
             if fn.id == "next" and len(args) <= 2:
                 if first:
+                    if getattr(args[0], "_iter", False) and isinstance(args[0], ast.List):
+                        rest = ast.List(elts=first[1:], ctx=ast.Load())
+                        rest._iter = True
+                        self.set_list(args[0], rest)     # every name that holds this iterator sees it advanced
                     return first[0]
                 if len(args) == 2:
                     return args[1]
-                raise _Rse                               # StopIteration
+                raise _Exc("StopIteration")
             if fn.id != "next" and len(args) == 1:
                 if not first:
                     return ast.Constant(value=fn.id == "all")
@@ -1189,6 +1456,10 @@ class _Run:
     def binop(self, l: ast.expr, op: ast.operator, r: ast.expr) -> ast.expr:
         if isinstance(op, ast.Add) and type(l) is type(r) and isinstance(l, (ast.List, ast.Tuple)):
             return type(l)(elts=[*l.elts, *r.elts], ctx=ast.Load())          # concatenation of two literals
+        nl, nr = _int(l), _int(r)
+        if nl is not None and nr is not None and isinstance(op, (ast.Add, ast.Sub, ast.Mult)):
+            v = nl + nr if isinstance(op, ast.Add) else nl - nr if isinstance(op, ast.Sub) else nl * nr
+            return ast.Constant(value=v) if v >= 0 else ast.UnaryOp(op=ast.USub(), operand=ast.Constant(value=-v))   # integer arithmetic
         return ast.BinOp(left=l, op=op, right=r)
 
     def callable_value(self, fn: ast.expr, args: list, kws: list, impl) -> ast.expr:
@@ -1310,7 +1581,7 @@ class _Run:
             elif xs:
                 acc, xs = xs[0], xs[1:]
             else:
-                raise _Rse                               # TypeError: reduce() of empty iterable with no initial value
+                raise _Exc("TypeError")                   # reduce() of empty iterable with no initial value
             for x in xs:
                 acc = call(args[0], [acc, x])
             return acc
@@ -1514,7 +1785,7 @@ class _Run:
             if i is not None:
                 if -len(vals) <= i < len(vals):
                     return vals[i]
-                raise _Rse                               # IndexError
+                raise _Exc("IndexError")
             if isinstance(k, ast.Slice):
                 cs = [None if x is None else _int(x) for x in (k.lower, k.upper, k.step)]
                 if all(c is not None or x is None for c, x in zip(cs, (k.lower, k.upper, k.step))):
@@ -1715,7 +1986,7 @@ class _Run:
                 if isinstance(cur, ast.List) and isinstance(s.op, ast.Add) and isinstance(v, (ast.List, ast.Tuple)):
                     self.set_list(cur, ast.List(elts=[*cur.elts, *v.elts], ctx=ast.Load()))      # in place: aliases see it
                 else:
-                    self.env[s.target.id] = ast.BinOp(left=cur, op=s.op, right=v)
+                    self.env[s.target.id] = self.binop(cur, s.op, v)
             else:
                 cur = self.ev(s.target)
                 self.bind(s.target, ast.BinOp(left=cur, op=s.op, right=v), s)
@@ -1784,7 +2055,7 @@ class _Run:
                 try:
                     self.block(s.body)
                 except _Exc as x:
-                    if not suppressed & (_CATCHES_KEYERROR if x.kind == "KeyError" else {x.kind, "Exception", "BaseException"}):
+                    if not suppressed & _catchers(x.kind):
                         raise
                 except _Rse:
                     raise self.undecided("an explicit raise inside `with suppress(...)`") from None
